@@ -11,7 +11,12 @@ use crate::{
     intermediate::{types::*, *},
 };
 
-use super::{common::optional_comma, constraint::constraints, error::MiscError, *};
+use super::{
+    common::{keyword, optional_comma},
+    constraint::constraints,
+    error::MiscError,
+    *,
+};
 
 pub fn sequence_value(input: Input<'_>) -> ParserResult<'_, ASN1Value> {
     map(
@@ -116,7 +121,7 @@ pub fn sequence_component(input: Input<'_>) -> ParserResult<'_, SequenceComponen
     skip_ws_and_comments(alt((
         map(
             preceded(
-                tag(COMPONENTS_OF),
+                keyword(COMPONENTS_OF),
                 skip_ws_and_comments(alt((
                     into_inner(recognize(separated_list1(tag(".&"), identifier))),
                     type_reference,
